@@ -19,7 +19,8 @@ SPEC = dict(
                 "structure — per-piece coverage / classdef1 / mark arrays / base columns / lookup header — of every table the real compiler "
                 "split or promoted) evaluated with vm_compute.  PairPosBuilder / MarkToBaseBuilder grouping and the byte-level TableData "
                 "surgery are covered by an implementation-only reference lookup walker (every rule pair + thousands of pairs without a rule "
-                "on rule sets from ~200 bytes to >4x64 KiB) — partial for those."),
+                "on rule sets from ~200 bytes to >4x64 KiB; value formats carrying every 2-/3-/4-subset of the four device / variation-index fields in either record, with per-record "
+                "independent null offsets and pairwise distinct device tables, split 2..4+ ways, compared field by field) — partial for those."),
     level_note=("Trusted: Coq kernel; the hand-written model coq/C16/Model.v (agreement with write-fonts/read-fonts is checked on every run, not proved); "
                 "the harness generators and the reference walker. The split-point size heuristics are NOT modelled: the theorems quantify over all "
                 "strictly increasing in-range split points, and the shards replay the points the real compiler chose. "
